@@ -1167,6 +1167,8 @@ func wrapAny(val Node, targetType *Type) Node {
 			v.Left = wrapAny(v.Left, targetType)
 			v.T = targetType
 			return v
+		case *IndexExpression, *DotExpression:
+			return wrapUntypedExpr(v, targetType)
 		}
 		panic(fmt.Sprintf("internal error: untyped array: %s incompatible types: target %v, value %v", val.Token().Location(), targetType, valType))
 	}
@@ -1178,6 +1180,8 @@ func wrapAny(val Node, targetType *Type) Node {
 		case *GroupExpression:
 			v.Expr = wrapAny(v.Expr, targetType)
 			return v
+		case *IndexExpression, *DotExpression:
+			return wrapUntypedExpr(v, targetType)
 		}
 		panic(fmt.Sprintf("internal error: untyped map: %s incompatible types: target %v, value %v", val.Token().Location(), targetType, valType))
 	}
@@ -1185,6 +1189,11 @@ func wrapAny(val Node, targetType *Type) Node {
 	if group, ok := val.(*GroupExpression); ok {
 		group.Expr = wrapAny(group.Expr, targetType)
 		return group
+	}
+	if hasUntypedEmpty(valType) {
+		if v := wrapUntypedExpr(val, targetType); v != nil {
+			return v
+		}
 	}
 	arrayLit, ok := val.(*ArrayLiteral)
 	if targetType.Name == ARRAY && ok {
@@ -1203,6 +1212,45 @@ func wrapAny(val Node, targetType *Type) Node {
 		return mapLit
 	}
 	panic(fmt.Sprintf("internal error: %s incompatible types: target %v, value %v", val.Token().Location(), targetType, valType))
+}
+
+// hasUntypedEmpty reports whether t is, or nests, the type of an untyped
+// empty composite literal, such as [[]] or {a:[]}.
+func hasUntypedEmpty(t *Type) bool {
+	for ; t != nil; t = t.Sub {
+		if t == EMPTY_ARRAY || t == EMPTY_MAP {
+			return true
+		}
+	}
+	return false
+}
+
+// wrapUntypedExpr gives a non-literal expression over untyped empty
+// literals, such as [[]] + [[]], [[]][:] or [[]][0], the target type by
+// converting the literals it is made of. It returns nil for other nodes.
+func wrapUntypedExpr(val Node, targetType *Type) Node {
+	switch v := val.(type) {
+	case *BinaryExpression:
+		v.Left = wrapAny(v.Left, targetType)
+		if v.Op == OP_PLUS {
+			v.Right = wrapAny(v.Right, targetType)
+		}
+		v.T = targetType
+		return v
+	case *SliceExpression:
+		v.Left = wrapAny(v.Left, targetType)
+		v.T = targetType
+		return v
+	case *IndexExpression:
+		v.Left = wrapAny(v.Left, &Type{Name: v.Left.Type().Name, Sub: targetType})
+		v.T = targetType
+		return v
+	case *DotExpression:
+		v.Left = wrapAny(v.Left, &Type{Name: MAP, Sub: targetType})
+		v.T = targetType
+		return v
+	}
+	return nil
 }
 
 func alwaysTerms(n Node) bool {
